@@ -264,10 +264,12 @@ MANIFEST = dict(
     level_text=(
         "Static analysis (no execution): forwarding completeness and slot roles, sibling agreement of the padded and "
         "packed sequence-score kernels (same masking steps, same neutral element for the same reduction), the neutral-"
-        "element table of greedy CTC decoding, and single-source parameters of the distribution wrapper. Necessary "
+        "element table of greedy CTC decoding, single-source parameters of the distribution wrapper, def-use versions in "
+        "the score kernels (first eos and out-of-vocabulary test read the tokens as given, only the gather index is the "
+        "zeroed copy) and agreement of the wrapper's model calls on a fresh copy of the initial state. Necessary "
         "conditions of 'identically for padded and packed input', 'up to and including the first end-of-sequence' and of "
         "the three code paths agreeing; the numeric agreement itself is not decided."),
     level_note="Trusted: python ast; documented exception that eos is ignored for packed input.",
-    technique="static analysis: sibling-implementation agreement (step fingerprints), neutral-element tables, argument/slot binding, single-source attribute use",
+    technique="static analysis: sibling-implementation agreement (step fingerprints), neutral-element tables, argument/slot binding, single-source attribute use, def-use version rule",
     design_ref="DESIGN.md section 4 C07",
 )
